@@ -673,7 +673,7 @@ class SimStream(object):
         if self._closed:
             raise EOFError("stream has been closed")
         if self.k.aborting:
-            raise KernelAbort()
+            return                      # teardown: writes never block, so they are simply dropped
         n = len(data)
         if self.record_ops:
             self.ops.append(("write", n))
